@@ -242,6 +242,7 @@ def run_ops(case, ctx, m, r, plan, real):
         for c in m.chips.values():
             c.writes = []
         del m.protocol_errors[:]
+        cmd_mark = len(m.cmds)
         tx0 = r.net.n_tx
         # ---- expected effect
         target = None       # (chip, addr, bytes) that must be written
@@ -354,6 +355,18 @@ def run_ops(case, ctx, m, r, plan, real):
                      faults=bool(plan))
         check(not m.protocol_errors, "malformed-command",
               "; ".join(m.protocol_errors[:3]), **where)
+        # every command of a plain transfer is addressed to the chip AND
+        # core the caller named (per-core memory is another core's business)
+        if kind in ("read", "write", "cread", "cwrite", "fill"):
+            for cmd_, dest_, a_, pl_ in m.cmds[cmd_mark:]:
+                if cmd_ not in (M.CMD["read"], M.CMD["write"],
+                                M.CMD["fill"]):
+                    continue        # e.g. the controller asking for the
+                                    # machine's buffer size
+                ctx.hit("command_destination")
+                check(dest_ == (op[1], op[2], op[3]), "wrong-core-addressed",
+                      "command %d went to %r, the caller named %r" %
+                      (cmd_, dest_, (op[1], op[2], op[3])), **where)
         # conservation: every logged write lies in the expected range
         for xy, c in m.chips.items():
             for a, ln in c.writes:
